@@ -265,6 +265,10 @@ PROPS["C09"]["tasks"] = PROPS["C09"]["tasks"] + [t for t in ("SequentialRunner._
 PROPS["C10"]["tasks"] = PROPS["C10"]["tasks"] + [t for t in ("OrderBook.cancel", "OrderBook.add", "OrderBook._check_expired_orders", "OrderBook._set_time") if t not in PROPS["C10"]["tasks"]]
 for _p in ("C01", "C04", "C06", "C08", "C17", "C19", "C20"):
     PROPS[_p]["tasks"] = PROPS[_p]["tasks"] + ["census:overrides"]      # the proofs about Market / Agent methods cover the subclasses of pams only while these do not redefine them
+# round 10: IndexMarket.setup is proved for lists of registered market names; what it does with other entries (group names, repetitions) is only checked within a bound
+PROPS["C17"]["bounded"] = list(PROPS["C17"].get("bounded") or []) + [
+    {"name": "index set-up names, component registration and index values on the real classes", "replayer": "index",
+     "bound": "7 set-up name lists (names, group names, repetitions), all registration sequences over 3 markets up to length 3, 40 (quick) / 400 (thorough) seeded clock histories of 3 steps", "timeout": 600}]
 from .census import CALLERS as _CALLERS
 for _g, (_ps, _r, _t) in _CALLERS.items():
     for _p in _ps:
